@@ -24,6 +24,9 @@ func orderScenarios(tier string) []clustermc.Scenario {
 		{"g1-np", []string{"p100", "p125"}, func(pc string) world.WL { return world.WL{Queue: "qa", PC: pc, Pods: pods(1, shG1, "", "")} }},
 		{"gang2-pre", []string{"p50", "p75"}, func(pc string) world.WL { return world.WL{Queue: "qa", PC: pc, MinMember: 2, Pods: pods(2, shG1, "", "")} }},
 		{"f5-pre", []string{"p50", "p75"}, func(pc string) world.WL { return world.WL{Queue: "qa", PC: pc, Pods: pods(1, shF5, "", "")} }},
+		// priorities at the ends of the legal range (differences beyond int32)
+		{"g1-pre-extreme", []string{"pmin", "p50"}, func(pc string) world.WL { return world.WL{Queue: "qa", PC: pc, Pods: pods(1, shG1, "", "")} }},
+		{"g1-np-extreme", []string{"p100", "pbig"}, func(pc string) world.WL { return world.WL{Queue: "qa", PC: pc, Pods: pods(1, shG1, "", "")} }},
 		{"cpu-pre", []string{"p50", "p75"}, func(pc string) world.WL { return world.WL{Queue: "qa", PC: pc, Pods: pods(1, shCPU, "", "")} }},
 	}
 	competitors := []struct {
